@@ -16,7 +16,8 @@ def perturb(rng, desc, k, amount=60, kern=True):
         g2["components"] = [(b, tuple(t[:4]) + (t[4] + rng.randint(-amount, amount), t[5] + rng.randint(-amount, amount)))
                             for b, t in g["components"]]
         g2["anchors"] = [(n, x + rng.randint(-amount, amount), y + rng.randint(-amount, amount)) for n, x, y in g.get("anchors", [])]
-        g2["width"] = max(Fr(0), Fr(g["width"]) + rng.randint(0, amount))
+        # zero-width glyphs (marks) stay zero-width in every master
+        g2["width"] = Fr(0) if Fr(g["width"]) == 0 else max(Fr(1), Fr(g["width"]) + rng.randint(0, amount))
         out["glyphs"].append(g2)
     for key, v in desc.get("kerning", {}).items():
         out["kerning"][key] = v + rng.randint(-20, 20) if kern else v
